@@ -28,6 +28,14 @@ def base_inputs(rng, n, truncation_bases=0):
             continue
         for cut in range(len(data) + 1):
             yield p["start"], p["et"], data[:cut], mkmeta(rng, p, data[:cut], ["cut@%d" % cut])
+        # the same with the IP length field zeroed ("to the end of the slice" for IPv6, smaller than the header for
+        # IPv4): every truncation again, among them the bare header
+        for (fname, off, w, kind) in p["fields"]:
+            if fname in ("ipv6.plen", "ipv4.tl") and i % 2 == 0:
+                z = data[:off] + bytes(w) + data[off + w :]
+                for cut in range(off + w, len(z) + 1):
+                    yield p["start"], p["et"], z[:cut], mkmeta(rng, p, z[:cut], ["%s=0" % fname, "cut@%d" % cut])
+                break
     # every header octet of some base packets with each single bit flipped and set to 0 / 255: reserved bits, flag
     # combinations, length octets and type numbers that no serialiser produces, one at a time and systematically
     for i in range(max(2, truncation_bases // 10)):
